@@ -23,6 +23,7 @@ def shards(tier, seed):
     out += [{'name': f'inv{k}', 'kind': 'inv', 'k': k, 'n': 5, 'cases': 9000 if q else 10**9, 'budget_s': 50 if q else 600} for k in range(5)]
     out += [{'name': 'seen', 'kind': 'seen', 'budget_s': 60 if q else 600},
             {'name': 'closure', 'kind': 'closure', 'cases': 6000 if q else 300000, 'budget_s': 50 if q else 600},
+            {'name': 'repotests', 'kind': 'repotests', 'budget_s': 300},
             {'name': 'unary', 'kind': 'unary', 'cases': 3000 if q else 100000, 'budget_s': 50 if q else 300}]
     return out
 
@@ -119,6 +120,10 @@ def run(spec, R):
     from depccg.grammar import ja
     rng = shard_rng(ID, spec['seed'], spec['name'])
     kind = spec['kind']
+    if kind == 'repotests':
+        from vlib import repotests
+        repotests.run_repo_tests(R, ['tests/grammar/test_ja.py'], lambda: None)
+        return
     atoms = gens.ja_atoms()
     if kind == 'schema':
         for i in range(spec['cases']):
